@@ -64,23 +64,31 @@ def liftG {β : Type} : Except GErr β → Except CErr β
 section Data
 variable {α : Type}
 
-/-- all multi-indices of a shape, row-major -/
-def idxList : List Nat → List (List Nat)
-  | [] => [[]]
-  | d :: ds => (List.range d).flatMap (fun i => (idxList ds).map (fun z => i :: z))
+mutual
+/-- equality of nested arrays -/
+def ntBeq [DecidableEq α] : NT α → NT α → Bool
+  | .s a, .s b => decide (a = b)
+  | .a xs, .a ys => ntBeqL xs ys
+  | .s _, .a _ => false
+  | .a _, .s _ => false
+def ntBeqL [DecidableEq α] : List (NT α) → List (NT α) → Bool
+  | [], [] => true
+  | x :: xs, y :: ys => ntBeq x y && ntBeqL xs ys
+  | [], _ :: _ => false
+  | _ :: _, [] => false
+end
 
-/-- `np.array_equal(a, b)`: same shape and all entries equal -/
-def dtEq [Zero α] [DecidableEq α] (a b : DT α) : Bool :=
-  a.shape == b.shape && (idxList a.shape).all (fun i => decide (a.get i = b.get i))
+/-- `np.array_equal(a, b)`: same shape and all entries equal (arrays are stored as nested lists of their shape) -/
+def dtEq [DecidableEq α] (a b : DT α) : Bool := a.shape == b.shape && ntBeq a.t b.t
 
 /-- the clash check of `TensorNetwork.merge`: `for k in other.data: if k in self.data: if not array_equal: raise` -/
-def dataClash [Zero α] [DecidableEq α] (self other : List (Int × DT α)) : Bool :=
+def dataClash [DecidableEq α] (self other : List (Int × DT α)) : Bool :=
   other.any (fun e => match self.lookup e.1 with
     | some d => !dtEq d e.2
     | none => false)
 
 /-- `TensorNetwork.merge(other, join_axes)`; `tor`/`bor` = iteration orders of the two key intersections -/
-def mergeTN [Zero α] [DecidableEq α] (self other : TN α) (join : List (Int × Int)) (tor bor : List Int) :
+def mergeTN [DecidableEq α] (self other : TN α) (join : List (Int × Int)) (tor bor : List Int) :
     Except CErr (TN α) := do
   if !(isPermOf tor (sharedTids self.net other.net) && isPermOf bor (sharedBids self.net other.net)) then
     throw .badOrder
@@ -116,6 +124,12 @@ structure PGate (α : Type) where
 inductive CInstr (α : Type) where
   | gate (p : PGate α)
   | ctrl
+
+/-- the same entry of `Circuit.gates` as the matrix view (`Qib.Embed.circuitMatrix`, `svRun`) sees it: particles and
+`as_matrix()` (a `2^num_wires` square matrix) -/
+def CInstr.toInstr : CInstr α → Qib.Embed.Instr α
+  | .ctrl => .ctrl
+  | .gate p => .gate p.particles (2 ^ p.g.wires) p.g.mat
 
 /-- `wiredims`: `for f in fields: wiredims += f.lattice.nsites * [f.local_dim]` -/
 def wireDims (fields : List FieldSpec) : List Nat := fields.flatMap (fun f => List.replicate f.nsites f.localDim)
